@@ -1,5 +1,6 @@
 import Model.WinArgv
 import Model.Sh
+import Model.Life
 /-!
   `modeldriver`: one request per input line, one answer per output line.
   The harness runs the implementation on the same requests and diffs the answers.
@@ -110,6 +111,65 @@ def handleSh (kind : String) (args : List String) : String :=
     | _ => "bad-request"
   | _ => "bad-request"
 
+namespace LifeIO
+open Life
+
+def parseOp (t : String) : Option Op :=
+  match t.splitOn ":" with
+  | ["poll"] => some .poll
+  | ["wait"] => some .wait
+  | ["wt", d] => d.toNat?.map .waitTimeout
+  | ["term"] => some .terminate
+  | ["kill"] => some .kill
+  | ["sig", n] => n.toNat?.map .sendSignal
+  | ["detach"] => some .detach
+  | ["pid"] => some .pid
+  | ["status"] => some .exitStatus
+  | ["drop"] => some .drop
+  | _ => none
+
+def parseResp (t : String) : Option Resp :=
+  match t.splitOn ":" with
+  | ["wp", p, w] => match p.toNat?, w.toNat? with
+    | some p, some w => some (.wp p w)
+    | _, _ => none
+  | ["err", e] => e.toNat?.map .err
+  | ["ok"] => some .ok
+  | ["t", n] => n.toNat?.map .time
+  | _ => none
+
+def showStatus : ExitStatus → String
+  | .exited c => s!"st:E{c}"
+  | .signaled g => s!"st:S{g}"
+  | .other w => s!"st:O{w}"
+  | .undetermined => "st:U"
+
+def showRet : Ret → String
+  | .none => "none"
+  | .status st => showStatus st
+  | .err e => s!"err:{e}"
+  | .ok => "ok"
+  | .pid p => s!"pid:{p}"
+  | .stuck => "stuck"
+
+def showCall : Call → String
+  | .waitpid p nh => s!"wp:{p}:{if nh then 1 else 0}"
+  | .kill p g => s!"kill:{p}:{g}"
+  | .clock => "clock"
+  | .sleep n => s!"sleep:{n}"
+
+/-- `life <op>* | <resp>*` → `<ret>* | <call>*` ; the Popen starts as `Running{pid = 1000}` -/
+def handle (args : List String) : String :=
+  let opsT := args.takeWhile (· ≠ "|")
+  let respT := (args.dropWhile (· ≠ "|")).drop 1
+  match allSome (opsT.map parseOp), allSome (respT.map parseResp) with
+  | some ops, some rs =>
+    let (_, rets, log) := runOps ⟨.running 1000, false⟩ ops rs
+    " ".intercalate (rets.map showRet) ++ " | " ++ " ".intercalate (log.map (showCall ·.1))
+  | _, _ => "bad-request"
+
+end LifeIO
+
 def handle (line : String) : String :=
   match tokens line with
   | "win" :: args => handleWin args
@@ -117,6 +177,7 @@ def handle (line : String) : String :=
   | "shp" :: args => handleSh "shp" args
   | "words" :: args => handleSh "words" args
   | "cmds" :: args => handleSh "cmds" args
+  | "life" :: args => LifeIO.handle args
   | _ => "bad-request"
 
 partial def loop (h : IO.FS.Stream) (out : IO.FS.Stream) : IO Unit := do
